@@ -134,12 +134,52 @@ Qed.
 Theorem float_cmp_refl a : f_is_nan a = false -> float_cmp a a = 0%Z.
 Proof. intros Na. rewrite float_cmp_unfold. apply minus_self. exact Na. Qed.
 
-(* the repaired Float_Hash respects Float_Cmp's equality *)
-Theorem float_eq_hash a b : (a < M64)%N -> (b < M64)%N -> f_is_nan a = false -> f_is_nan b = false ->
-  float_cmp a b = 0%Z -> float_hash true a = float_hash true b.
+(* ------------------------------------------------------------------ the shapes of Float_Hash *)
+(* the zeros are exactly the bit patterns 0 and 2^63 *)
+Lemma f_is_zero_iff b : (b < M64)%N -> (f_is_zero b = true <-> b = 0%N \/ b = 9223372036854775808%N).
 Proof.
-  intros Ha Hb Na Nb Hc. destruct (float_cmp_zero a b Ha Hb Na Nb Hc) as [->|[Za Zb]]; [reflexivity|].
-  unfold float_hash. rewrite Za, Zb. reflexivity.
+  intros Hb. split.
+  - unfold f_is_zero, f_of_bits, b64_of_bits. intros Z.
+    pose proof (bits_of_binary_float_of_bits 52 11 eq_refl eq_refl eq_refl (Z.of_N b)) as R.
+    destruct (binary_float_of_bits 52 11 eq_refl eq_refl eq_refl (Z.of_N b)) as [s| | |]; try discriminate.
+    assert (Hr : (0 <= Z.of_N b < 2 ^ (52 + 11 + 1))%Z)
+      by (change (2 ^ (52 + 11 + 1))%Z with (Z.of_N M64); lia).
+    specialize (R Hr). destruct s; cbv - [Z.of_N] in R; [right|left]; lia.
+  - intros [->| ->]; vm_compute; reflexivity.
+Qed.
+
+(* (bits << 1) in a 64-bit word is 0 exactly for the same two patterns *)
+Lemma shift_zero_iff b : (b < M64)%N ->
+  ((w64 (N.shiftl b 1) =? 0)%N = true <-> b = 0%N \/ b = 9223372036854775808%N).
+Proof.
+  intros Hb. rewrite N.eqb_eq, N.shiftl_mul_pow2. unfold w64. change (2 ^ 1)%N with 2%N. unfold M64 in *.
+  split.
+  - intros E. destruct (N.lt_ge_cases b 9223372036854775808) as [L|G].
+    + rewrite N.mod_small in E by lia. left. lia.
+    + right. assert (Q : (b * 2 = 18446744073709551616 * 1 + (b * 2 - 18446744073709551616))%N) by lia.
+      rewrite Q in E. rewrite N.mul_comm, N.add_comm in E.
+      rewrite N.mod_add in E by discriminate. rewrite N.mod_small in E by lia. lia.
+  - intros [->| ->]; reflexivity.
+Qed.
+
+Lemma float_hash_norm shape b : fh_normalising shape = true -> (b < M64)%N ->
+  float_hash shape b = if f_is_zero b then 0%N else b.
+Proof.
+  intros Hs Hb. destruct shape as [|[|[|n]]]; try discriminate; [reflexivity|].
+  unfold float_hash.
+  destruct (f_is_zero b) eqn:Z, (w64 (N.shiftl b 1) =? 0)%N eqn:S; try reflexivity.
+  - apply (f_is_zero_iff b Hb) in Z. apply (shift_zero_iff b Hb) in Z. congruence.
+  - apply (shift_zero_iff b Hb) in S. apply (f_is_zero_iff b Hb) in S. congruence.
+Qed.
+
+(* a normalising Float_Hash respects Float_Cmp's equality *)
+Theorem float_eq_hash shape a b : fh_normalising shape = true ->
+  (a < M64)%N -> (b < M64)%N -> f_is_nan a = false -> f_is_nan b = false ->
+  float_cmp a b = 0%Z -> float_hash shape a = float_hash shape b.
+Proof.
+  intros Hs Ha Hb Na Nb Hc. rewrite !float_hash_norm by assumption.
+  destruct (float_cmp_zero a b Ha Hb Na Nb Hc) as [->|[Za Zb]]; [reflexivity|].
+  rewrite Za, Zb. reflexivity.
 Qed.
 
 (* two zeros (any signs) compare equal *)
@@ -153,3 +193,107 @@ Qed.
 
 Lemma f_is_zero_nonnan b : f_is_zero b = true -> f_is_nan b = false.
 Proof. unfold f_is_zero, f_is_nan. destruct (f_of_bits b); try discriminate. reflexivity. Qed.
+
+(* ------------------------------------------------------------------ the two shapes of Float_Cmp agree *)
+(* `(lhs > rhs) - (lhs < rhs)` on the operands and the sign of the rounded difference are the same
+   function on ALL pairs of doubles: NaN gives 0 either way, inf - inf = NaN and inf == inf, the
+   rounded difference of two distinct finite doubles is never 0 and has the sign of the exact one,
+   an overflowing difference has the sign of the first operand. *)
+Definition dir_of (x y : B64) : Z :=
+  match b64_compare x y with Some Lt => -1 | Some Gt => 1 | _ => 0 end%Z.
+
+Lemma float_cmp_direct_unfold a b : float_cmp_direct a b = dir_of (f_of_bits a) (f_of_bits b).
+Proof. reflexivity. Qed.
+
+Lemma cmp_of_finite (r : B64) : Binary.is_finite _ _ r = true ->
+  (Binary.B2R _ _ r = 0%R -> cmp_of r = 0%Z) /\
+  (Binary.B2R _ _ r <> 0%R -> cmp_of r = if Binary.Bsign _ _ r then (-1)%Z else 1%Z).
+Proof.
+  destruct r as [s|s|s pl e|s m e H]; simpl; intros F; try discriminate.
+  - split; [reflexivity|]. intros N. exfalso. apply N. reflexivity.
+  - split; [|reflexivity]. intros Z. exfalso. apply eq_0_F2R in Z. destruct s; discriminate.
+Qed.
+
+Lemma Bsign_B2R (x : B64) : Binary.is_finite _ _ x = true ->
+  (Binary.Bsign _ _ x = true -> (Binary.B2R _ _ x <= 0)%R) /\
+  (Binary.Bsign _ _ x = false -> (0 <= Binary.B2R _ _ x)%R).
+Proof.
+  destruct x as [s|s|s pl e|s m e H]; simpl; intros F; try discriminate.
+  - split; intros _; lra.
+  - split; intros ->.
+    + apply Rlt_le. apply F2R_lt_0. simpl. lia.
+    + apply Rlt_le. apply F2R_gt_0. simpl. lia.
+Qed.
+
+Lemma minus_direct_finite (x y : B64) :
+  Binary.is_finite _ _ x = true -> Binary.is_finite _ _ y = true ->
+  cmp_of (b64_minus mode_NE x y) = dir_of x y.
+Proof.
+  intros Fx Fy. unfold dir_of, b64_compare. rewrite Binary.Bcompare_correct by assumption.
+  unfold b64_minus.
+  match goal with |- context [Binary.Bminus _ _ ?hp ?hm _ _ _ _] =>
+    pose proof (Binary.Bminus_correct 53 1024 hp hm binop_nan_pl64 mode_NE x y Fx Fy) as H;
+    set (r := Binary.Bminus 53 1024 hp hm binop_nan_pl64 mode_NE x y) in *
+  end.
+  set (rx := Binary.B2R 53 1024 x) in *. set (ry := Binary.B2R 53 1024 y) in *.
+  assert (Fmt : forall z : B64, generic_format radix2 (SpecFloat.fexp 53 1024) (Binary.B2R 53 1024 z))
+    by (intros; apply Binary.generic_format_B2R).
+  destruct (Rcompare_spec rx ry) as [Hlt|Heq|Hgt].
+  - (* x < y *)
+    destruct (Rlt_bool _ _) eqn:Hov.
+    + destruct H as [HR [HF HS]].
+      rewrite Rcompare_Lt in HS by lra.
+      assert (Nz : Binary.B2R 53 1024 r <> 0%R).
+      { intros Z. rewrite HR in Z. unfold Rminus in Z.
+        apply (round_plus_eq_0 radix2 (SpecFloat.fexp 53 1024) (round_mode mode_NE)) in Z;
+          [lra | apply Fmt | apply generic_format_opp; apply Fmt]. }
+      rewrite (proj2 (cmp_of_finite r HF) Nz), HS. reflexivity.
+    + destruct H as [HB Hs].
+      assert (Sx : Binary.Bsign 53 1024 x = true).
+      { destruct (Binary.Bsign 53 1024 x) eqn:E; [reflexivity|]. exfalso.
+        pose proof (proj2 (Bsign_B2R x Fx) E). symmetry in Hs. apply negb_false_iff in Hs.
+        pose proof (proj1 (Bsign_B2R y Fy) Hs). fold rx in H. fold ry in H0. lra. }
+      rewrite Sx in HB. unfold Binary.binary_overflow in HB.
+      destruct r as [s|s|s pl e|s m e Hb]; simpl in *;
+        destruct (overflow_to_inf mode_NE true); try discriminate; injection HB as ->; reflexivity.
+  - (* x = y *)
+    replace (rx - ry)%R with 0%R in H by lra.
+    rewrite round_0 in H by apply valid_rnd_N. rewrite Rabs_R0 in H.
+    rewrite Rlt_bool_true in H by apply bpow_gt_0.
+    destruct H as [HR [HF _]]. apply (proj1 (cmp_of_finite r HF)). exact HR.
+  - (* x > y *)
+    destruct (Rlt_bool _ _) eqn:Hov.
+    + destruct H as [HR [HF HS]].
+      rewrite Rcompare_Gt in HS by lra.
+      assert (Nz : Binary.B2R 53 1024 r <> 0%R).
+      { intros Z. rewrite HR in Z. unfold Rminus in Z.
+        apply (round_plus_eq_0 radix2 (SpecFloat.fexp 53 1024) (round_mode mode_NE)) in Z;
+          [lra | apply Fmt | apply generic_format_opp; apply Fmt]. }
+      rewrite (proj2 (cmp_of_finite r HF) Nz), HS. reflexivity.
+    + destruct H as [HB Hs].
+      assert (Sx : Binary.Bsign 53 1024 x = false).
+      { destruct (Binary.Bsign 53 1024 x) eqn:E; [|reflexivity]. exfalso.
+        pose proof (proj1 (Bsign_B2R x Fx) E). symmetry in Hs. apply negb_true_iff in Hs.
+        pose proof (proj2 (Bsign_B2R y Fy) Hs). fold rx in H. fold ry in H0. lra. }
+      rewrite Sx in HB. unfold Binary.binary_overflow in HB.
+      destruct r as [s|s|s pl e|s m e Hb]; simpl in *;
+        destruct (overflow_to_inf mode_NE false); try discriminate; injection HB as ->; reflexivity.
+Qed.
+
+Lemma minus_direct (x y : B64) : cmp_of (b64_minus mode_NE x y) = dir_of x y.
+Proof.
+  destruct (Binary.is_finite _ _ x) eqn:Fx; destruct (Binary.is_finite _ _ y) eqn:Fy.
+  - apply minus_direct_finite; assumption.
+  - destruct x as [sx|sx|sx plx ex|sx mx ex Hx], y as [sy|sy|sy ply ey|sy my ey Hy];
+      try discriminate; try (destruct sx); try (destruct sy); reflexivity.
+  - destruct x as [sx|sx|sx plx ex|sx mx ex Hx], y as [sy|sy|sy ply ey|sy my ey Hy];
+      try discriminate; try (destruct sx); try (destruct sy); reflexivity.
+  - destruct x as [sx|sx|sx plx ex|sx mx ex Hx], y as [sy|sy|sy ply ey|sy my ey Hy];
+      try discriminate; try (destruct sx); try (destruct sy); reflexivity.
+Qed.
+
+Theorem float_cmp_forms_agree : forall form a b, float_cmp_of_form form a b = float_cmp a b.
+Proof.
+  intros [|n] a b; [reflexivity|]. simpl. rewrite float_cmp_direct_unfold, float_cmp_unfold.
+  symmetry. apply minus_direct.
+Qed.
